@@ -718,6 +718,27 @@ func checkC14(res *Result) {
 		var resultObj types.Object
 		if fd.Type.Results != nil && len(fd.Type.Results.List) > 0 && len(fd.Type.Results.List[0].Names) > 0 {
 			resultObj = info.ObjectOf(fd.Type.Results.List[0].Names[0])
+		} else {
+			// explicit returns: the one variable every return hands back as the value
+			same := true
+			ast.Inspect(fd.Body, func(n ast.Node) bool {
+				if _, isLit := n.(*ast.FuncLit); isLit {
+					return false
+				}
+				if r, ok := n.(*ast.ReturnStmt); ok && len(r.Results) == 2 {
+					if id, ok := r.Results[0].(*ast.Ident); ok && id.Name != "nil" {
+						if o := info.ObjectOf(id); resultObj == nil {
+							resultObj = o
+						} else if o != resultObj {
+							same = false
+						}
+					}
+				}
+				return true
+			})
+			if !same {
+				resultObj = nil
+			}
 		}
 		ast.Inspect(fd.Body, func(n ast.Node) bool {
 			fl, ok := n.(*ast.FuncLit)
